@@ -31,7 +31,7 @@ ASSUMPTIONS = ["where OpenFlow 1.0 defines no error (port stats / queue "
                "may appear between replies",
                "flow_mod with an unknown action type is not generated (the "
                "statement lists ports, tables, queues, buffers, commands)"]
-REQUIRED = ["requests", "replies_checked", "errors_checked", "no_reply_checked",
+REQUIRED = ["mid_session_hellos", "bounded_table_cases", "barrier_state_probes_with_state_to_see", "requests", "replies_checked", "errors_checked", "no_reply_checked",
             "stats_requests", "batch_compared", "invalid_requests",
             "barrier_probes"]
 TIMEOUT = {"quick": 900, "thorough": 7200}
@@ -111,6 +111,10 @@ def expect (model, req):
     return ("reply", "echo_reply",
             lambda m: None if m["body"] == d["body"] else "echo body differs")
   if n == "echo_reply": return ("none",)
+  if n == "hello":
+    # a HELLO in mid-session (with or without a body): at most the switch's
+    # own HELLO in return if it has not sent one yet - never an error
+    return ("optional", "hello")
   if n == "features_request":
     def chk (m):
       if m["datapath_id"] != DPID: return "datapath_id"
@@ -118,6 +122,13 @@ def expect (model, req):
       got = sorted((p["port_no"], p["hw_addr"]) for p in m["ports"])
       want = sorted((p, port_hw(p)) for p in model.ports)
       if got != want: return "ports %r != %r" % (got, want)
+      for p in m["ports"]:
+        # (NO_STP is excepted: this switch has no spanning tree to enable and
+        #  says so)
+        if (p["config"] ^ cfg[p["port_no"]]) & 0x7f & ~0x2:
+          return "config of port %d is %#x, port_mods so far say %#x" % (
+            p["port_no"], p["config"], cfg[p["port_no"]])
+    cfg = dict(model.config)
     return ("reply", "features_reply", chk)
   if n == "get_config_request":
     f, ml = model.flags, model.miss_send_len
@@ -158,6 +169,8 @@ def expect (model, req):
       return ("error", [(1, 7), (1, 8)])       # BUFFER_EMPTY / BUFFER_UNKNOWN
     for a in d["actions"]:
       if a["type"] not in ofwire.ACTIONS:
+        # (generated only at the head of a list: whether actions in front of
+        #  a bad one still take effect is not settled by the statement)
         return ("error", [(2, 0)])             # BAD_ACTION / BAD_TYPE
     if d["data"]:
       model.outputs(d["actions"], d["in_port"], len(d["data"]))
@@ -179,10 +192,16 @@ def expect (model, req):
       if t == 1:
         def chk (m):
           if m["type"] != 1: return "stats type"
+          for e in m["body"]:
+            if e["table_id"] != 0: return "table_id %d" % e["table_id"]
           got = sorted(((tuple(sorted(OM.canon(e["match"]).items())),
-                         e["priority"]) for e in m["body"]), key=repr)
+                         e["priority"], e["cookie"],
+                         [ofwire.enc_action(a) for a in e["actions"]])
+                        for e in m["body"]), key=repr)
           want = sorted(((tuple(sorted(OM.canon(e["match"]).items())),
-                          e["priority"]) for e in hit), key=repr)
+                          e["priority"], e["cookie"],
+                          [ofwire.enc_action(a) for a in e["actions"]])
+                         for e in hit), key=repr)
           if got != want:
             return "flow stats entries: got %d, reference %d" % (len(got), len(want))
         return ("reply", "stats_reply", chk)
@@ -228,7 +247,7 @@ def expect (model, req):
 
 
 def encode (req):
-  if req["name"] == "malformed": return req["fields"]["raw"]
+  if req["name"] in ("malformed", "hello"): return req["fields"]["raw"]
   return ofwire.enc_message(req["name"], req["fields"])
 
 
@@ -240,7 +259,30 @@ def gen_malformed (rng, xid):
   behind it answered as usual.
   """
   k = rng.choice(["set_config", "port_mod", "stats_request", "flow_mod",
-                  "queue_get_config_request", "header_only", "unknown_type"])
+                  "queue_get_config_request", "header_only", "unknown_type",
+                  "overlong", "overlong"])
+  if k == "overlong":
+    # a complete, valid message with more bytes behind its body than its type
+    # has room for (the length field agrees with the bytes sent)
+    kind = rng.choice(["features_request", "barrier_request", "get_config_request",
+                       "set_config", "port_mod", "queue_get_config_request",
+                       "stats_desc", "stats_table", "stats_port", "stats_flow"])
+    if kind == "set_config": good = ofwire.enc_message(kind, dict(xid=xid, flags=0, miss_send_len=128))
+    elif kind == "port_mod":
+      good = ofwire.enc_message(kind, dict(xid=xid, port_no=1, hw_addr=port_hw(1),
+                                           config=0, mask=0, advertise=0))
+    elif kind == "queue_get_config_request": good = ofwire.enc_message(kind, dict(xid=xid, port=1))
+    elif kind == "stats_desc": good = ofwire.enc_message("stats_request", dict(xid=xid, type=0, flags=0, body={}))
+    elif kind == "stats_table": good = ofwire.enc_message("stats_request", dict(xid=xid, type=3, flags=0, body={}))
+    elif kind == "stats_port":
+      good = ofwire.enc_message("stats_request", dict(xid=xid, type=4, flags=0, body=dict(port_no=0xffff)))
+    elif kind == "stats_flow":
+      good = ofwire.enc_message("stats_request", dict(xid=xid, type=1, flags=0, body=dict(
+        match=MATCHES[0], table_id=0xff, out_port=0xffff)))
+    else: good = ofwire.enc_message(kind, dict(xid=xid))
+    raw = good + bytes(rng.getrandbits(8) for _ in range(rng.choice([4, 8, 60])))
+    raw = raw[:2] + struct.pack("!H", len(raw)) + raw[4:]
+    return dict(name="malformed", fields=dict(xid=xid, of="overlong_" + kind, raw=raw))
   if k == "header_only":
     # nothing but the header of a message type that needs a body
     t = rng.choice([9, 13, 14, 15, 16, 20, 4])
@@ -284,7 +326,11 @@ def gen_request (rng, xid):
     return dict(name=name, fields=f)
   if r < 0.08: return msg("echo_request", body=bytes(rng.getrandbits(8) for _ in
                                                      range(rng.choice([0, 1, 8, 100]))))
-  if r < 0.10: return msg("echo_reply", body=b"abc")
+  if r < 0.095: return msg("echo_reply", body=b"abc")
+  if r < 0.10:
+    body = bytes(rng.getrandbits(8) for _ in range(rng.choice([0, 0, 8, 20])))
+    return dict(name="hello", fields=dict(xid=xid, raw=struct.pack(
+      "!BBHL", 1, 0, 8 + len(body), xid) + body))
   if r < 0.16: return msg("features_request")
   if r < 0.22: return msg("get_config_request")
   if r < 0.28: return msg("set_config", flags=rng.choice([0, 1, 2, 3]),
@@ -303,10 +349,13 @@ def gen_request (rng, xid):
   if r < 0.66:
     cmd = rng.choice([0, 0, 0, 1, 2, 3, 4, 5, 9, 0xffff])
     return msg("flow_mod", match=rng.choice(MATCHES), cookie=rng.getrandbits(32),
-               command=cmd, idle_timeout=0, hard_timeout=0,
+               command=cmd, idle_timeout=rng.choice([0, 0, 0, 5]),
+               hard_timeout=rng.choice([0, 0, 0, 5]),
                priority=rng.choice([1, 2, 0x8000]), buffer_id=0xffffffff,
                out_port=rng.choice([0xffff, 0xffff, 2]) if cmd in (3, 4) else 0xffff,
-               flags=rng.choice([0, 0, 1, 2, 3]),
+               # (the emergency flag only with ADD: what it means on the other
+               #  commands is not settled)
+               flags=rng.choice([0, 0, 1, 2, 3, 4, 5, 6, 7] if cmd == 0 else [0, 0, 1, 2, 3]),
                actions=rng.choice([[], [dict(type=0, port=2, max_len=0)],
                                    [dict(type=0, port=3, max_len=0)]]))
   if r < 0.76:
@@ -320,8 +369,11 @@ def gen_request (rng, xid):
       return msg("packet_out", buffer_id=rng.choice([0, 1, 5, 0x7fffffff]),
                  in_port=1, actions=acts, data=b"")
     if k < 0.35:
+      bad = lambda: dict(type=rng.choice([12, 0x77]), data=b"\0" * 4)
       return msg("packet_out", buffer_id=0xffffffff, in_port=1,
-                 actions=[dict(type=rng.choice([12, 0x77]), data=b"\0" * 4)],
+                 actions=rng.choice([[bad()], [bad(), bad()],
+                                     [bad(), dict(type=0, port=2, max_len=0)],
+                                     [bad(), dict(type=0, port=0xfffb, max_len=0), bad()]]),
                  data=FRAME)
     return msg("packet_out", buffer_id=0xffffffff,
                in_port=rng.choice([1, 2, 0xffff]), actions=acts, data=FRAME)
@@ -343,9 +395,11 @@ def gen_request (rng, xid):
              body=body)
 
 
-def new_switch ():
+def new_switch (max_entries=None):
+  kw = {}
+  if max_entries: kw["max_entries"] = max_entries
   return simnet.DirectSwitch(dpid=DPID, ports=NPORTS, max_buffers=0,
-                             miss_send_len=128)
+                             miss_send_len=128, **kw)
 
 
 def decode_out (b, fire):
@@ -367,8 +421,20 @@ def run_sequence (case, rep):
     xid = rng.choice(XIDS) if rng.random() < 0.4 else rng.getrandbits(32)
     reqs.append(gen_request(rng, xid))
   # --- one by one
-  sw = new_switch()
+  sw = new_switch(case.get("max_entries"))
   model = Model()
+  if case.get("max_entries"):
+    model.table = OT.Table(max_entries=case["max_entries"])
+    rep.count("bounded_table_cases")
+  # the ports' initial configuration, as the switch itself reports it before
+  # anything was asked of it (port_mods are applied to this)
+  sw.feed(ofwire.enc_message("features_request", dict(xid=1)))
+  try:
+    for m in ofwire.dec_stream(sw.take_bytes()):
+      if m["name"] == "features_reply":
+        for pt in m["ports"]: model.config[pt["port_no"]] = pt["config"]
+  except ofwire.WireError:
+    pass
   per_request_out = []
   nt = False
   ok = True
@@ -396,6 +462,19 @@ def run_sequence (case, rep):
     xid = req["fields"]["xid"]
     lab = label(req)
     if exp[0] != "none" or exp[0] == "error": nt = nt or exp[0] in ("error", "either")
+    if exp[0] == "optional":
+      rep.count("mid_session_hellos")
+      if sync and sync[0]["name"] == exp[1]:
+        model.hellos_sent = getattr(model, "hellos_sent", 0) + 1
+        if model.hellos_sent > 1:
+          fire("switch sent its HELLO more than once on one connection",
+               "%d so far" % model.hellos_sent); ok = False
+          continue
+      if len(sync) > 1 or (sync and sync[0]["name"] != exp[1]):
+        fire("%s answered with %s" % (lab, describe(sync[0] if sync[0]["name"] != exp[1] else sync[1])),
+             "expected nothing or one %s; got %r" % (exp[1], [describe(m) for m in sync]))
+        ok = False
+      continue
     if exp[0] == "none":
       rep.count("no_reply_checked")
       if sync:
@@ -427,7 +506,30 @@ def run_sequence (case, rep):
       why = exp[2](m)
       if why:
         fire("%s reply content: %s" % (lab, why.split(" ")[0]), why); ok = False
-      if req["name"] == "barrier_request": rep.count("barrier_probes")
+      if req["name"] == "barrier_request":
+        rep.count("barrier_probes")
+        # "only after the effects of all earlier messages are in place": the
+        # state the earlier messages ask for, read at the moment the reply is
+        # out and before anything else is sent (not through another request,
+        # which would give the switch a chance to catch up)
+        try:
+          n_sw = len(sw.switch.table.entries)
+          n_model = len(model.table.entries)
+          if n_sw != n_model:
+            fire("barrier reply sent before earlier flow_mods took effect",
+                 "the table holds %d entries when the reply is out, the "
+                 "requests before the barrier leave %d" % (n_sw, n_model))
+            ok = False
+          for pn, c in model.config.items():
+            got_c = sw.switch.ports[pn].config
+            if (got_c ^ c) & 0x7f & ~0x2:
+              fire("barrier reply sent before earlier port_mods took effect",
+                   "port %d config %#x, requested %#x" % (pn, got_c, c))
+              ok = False; break
+          if model.table.entries or any(model.config.values()):
+            rep.count("barrier_state_probes_with_state_to_see")
+        except AttributeError:
+          pass
     elif exp[0] == "error":
       rep.count("invalid_requests")
       if m["name"] != "error":
@@ -449,7 +551,7 @@ def run_sequence (case, rep):
         fire("%s answered with %s" % (lab, describe(m)), ""); ok = False
   # --- differential: same sequence as one segmented batch on a fresh switch
   if ok:
-    sw2 = new_switch()
+    sw2 = new_switch(case.get("max_entries"))
     blob = b"".join(encode(r) for r in reqs)
     cuts = sorted(rng.randrange(1, len(blob)) for _ in range(rng.choice([0, 1, 3, 8])))
     prev = 0
@@ -540,6 +642,7 @@ def run (spec, rep):
   for i in range(spec["count"]):
     case = dict(seed="c13/%d/%d/%d" % (spec["seed"], spec["sub"], i),
                 n=spec["n"] if i % 3 else max(2, spec["n"] // 3))
+    if i % 5 == 4: case["max_entries"] = 2
     do_case(case, rep)
     if i == 0: rep.sample(case)
 
